@@ -307,6 +307,10 @@ class SimplicialComplex(Hypergraph):
             members = frozenset(members)
         except TypeError:
             raise XGIError("The simplex cannot be cast to a frozenset.")
+        if not members:
+            return
+        if None in members:
+            raise XGIError("None cannot be a node")
 
         if self.has_simplex(members):
             return
